@@ -346,8 +346,16 @@ impl<T: MessageType> MessageEncoder<T> {
         conn_type: ConnectionType,
         config: &ServiceConfig,
     ) -> io::Result<()> {
+        // responses with these statuses never have a body (RFC 7230 section 3.3.3), whatever size
+        // the body type reports; `encode_headers` drops their length headers, so body bytes
+        // written after the head would be read by the peer as the start of the next response
+        let bodiless_status = matches!(
+            message.status(),
+            Some(StatusCode::CONTINUE | StatusCode::PROCESSING | StatusCode::NO_CONTENT)
+        );
+
         // transfer encoding
-        if !head {
+        if !head && !bodiless_status {
             self.te = match length {
                 BodySize::Sized(0) => TransferEncoding::empty(),
                 BodySize::Sized(len) => TransferEncoding::length(len),
